@@ -194,6 +194,11 @@ def consumer_scenario(rnd, script, group=True, gaps=False):
         d = defer.Deferred()
         state['in_processor'] += 1
         proc_pending.append((d, offs))
+        if rnd.random() < 0.3:
+            # a Deferred that HAS fired but whose result is still pending: its chain is paused on `d`
+            outer = defer.succeed(None)
+            outer.addCallback(lambda _: d)
+            return outer
         return d
 
     c = Consumer(client, 't', 0, processor, consumer_group='g' if group else None,
@@ -403,9 +408,13 @@ def scenario_broker_aware(rnd, n):
             if not isinstance(res, Failure) or not res.check(FailedPayloadsError):
                 raise Hit('C07:failed-payloads-not-reported' if acks else 'C01+C07:acks0-send-reported-success-although-broker-failed',
                           repr(res)[:200])
-            if client.topics_to_brokers or client.topic_partitions or client._group_to_coordinator:
-                raise Hit('C08:failed-send-did-not-invalidate-cached-routing', sorted(map(repr, client.topics_to_brokers)))
             got_failed = [p for p, f in res.value.failed_payloads]
+            # the routing the failed sends relied on must be gone, so that the next request re-resolves it (what else
+            # is dropped along with it is not prescribed: afkak drops everything)
+            stale = [(p.topic, p.partition) for p in expected_failed
+                     if group is None and TopicAndPartition(p.topic, p.partition) in client.topics_to_brokers]
+            if stale or (group is not None and client._group_to_coordinator.get(group) is not None):
+                raise Hit('C08:failed-send-did-not-invalidate-cached-routing', stale)
             if sorted(map(repr, got_failed)) != sorted(map(repr, expected_failed)):
                 raise Hit('C07:failed-payloads-do-not-account-for-every-payload', (got_failed, expected_failed))
             resps = res.value.responses
@@ -687,7 +696,7 @@ def scenario_metadata_merge(rnd, n):
             for i, bc in before_clients.items():
                 if i in brokers_for_call:
                     if bc.meta != brokers_for_call[i]:
-                        raise Hit('C08:connected-broker-client-not-told-the-new-address', (i, bc.meta, brokers_for_call[i]))
+                        raise Hit('C07+C08:connected-broker-client-not-told-the-new-address', (i, bc.meta, brokers_for_call[i]))
                     if bc.closed or client.clients.get(i) is not bc:
                         raise Hit('C08:client-of-a-listed-broker-closed', i)
                 elif full and brokers_for_call:
@@ -798,11 +807,27 @@ def scenario_brokerclient(rnd, n):
         bc = _KafkaBrokerClient(clock, ep, BrokerMetadata(1, 'h', 9092), 'cid', lambda nfail: 1.0)
         fired = {}
         ds = {}
-        nid = [0]
+        # correlation ids are only required to be unique per connection, not ascending (they wrap at 2^31)
+        pool = r.sample(range(1, 60), 40)
+        issued = []
+        protos = []
+
+        def written(p):
+            return [struct.unpack('>i', c.args[0][:4])[0] for c in p.sendString.call_args_list]
+
+        def check_order():
+            # C10: on every connection each request is written at most once and in the order the requests were issued
+            for p in protos:
+                w = written(p)
+                if len(set(w)) != len(w):
+                    raise Hit('C10:request-written-twice-on-one-connection', w)
+                idx = [issued.index(i) for i in w]
+                if idx != sorted(idx):
+                    raise Hit('C10:requests-sent-out-of-issue-order', (w, list(issued)))
 
         def mk(cancel_sibling=None):
-            nid[0] += 1
-            i = nid[0]
+            i = pool.pop()
+            issued.append(i)
             d = bc.makeRequest(i, struct.pack('>i', i) + b'x', expectResponse=r.random() < 0.8)
             fired[i] = 0
 
@@ -836,7 +861,12 @@ def scenario_brokerclient(rnd, n):
                     mk(cancel_sibling=r.choice(older) if older else None)
                 elif ev == 'connected':
                     proto = Mock()
+                    protos.append(proto)
+                    unanswered = [i for i in issued if i in bc.requests and bc.requests[i].cancelled is None]
                     connect_ds[-1].callback(proto)
+                    missing = [i for i in unanswered if i not in written(proto) and i in bc.requests]
+                    if missing:
+                        raise Hit('C10:unanswered-request-not-re-sent-on-the-new-connection', (missing, written(proto)))
                 elif ev == 'connect_failed':
                     connect_ds[-1].errback(Failure(RuntimeError('refused')))
                     clock.advance(1.5)
@@ -864,7 +894,45 @@ def scenario_brokerclient(rnd, n):
                 raise
             except Exception as e:
                 raise Hit('C06:unexpected-exception-%s' % type(e).__name__, '%s during %s' % (e, ev))
+            check_order()
     return _run(rnd, n, one)
+
+
+def scenario_frames(rnd, n):
+    """KafkaProtocol over a StringTransport: a frame announcing an impossible length (>= 2^31 read as unsigned) drops the
+    connection as soon as its header is complete; a legal frame is delivered exactly once with its own bytes, whatever
+    the chunking.  Exhaustive over the listed lengths x chunkings."""
+    from unittest.mock import Mock
+    from twisted.internet.testing import StringTransport
+    from afkak._protocol import KafkaProtocol
+
+    def one(r, script):
+        length = r.choice([0, 5, 2 ** 31 - 1, 2 ** 31, 2 ** 31 + 1, 2 ** 32 - 1])
+        chunk = r.choice([None, 1, 3])
+        script.append(('announced-length', length, 'chunk', chunk))
+        p = KafkaProtocol()
+        p.factory = Mock()
+        t = StringTransport()
+        p.makeConnection(t)
+        body = b'abcde'[:length] if length <= 5 else b'xxxxxxxx'
+        data = struct.pack('>I', length) + body
+        pieces = [data] if chunk is None else [data[i:i + chunk] for i in range(0, len(data), chunk)]
+        for piece in pieces:
+            if t.disconnecting:
+                break
+            p.dataReceived(piece)
+        if length >= 2 ** 31:
+            if not t.disconnecting:
+                raise Hit('C06:impossible-frame-length-did-not-terminate-the-connection', length)
+            if p.factory.handleResponse.called:
+                raise Hit('C06:frame-with-impossible-length-was-delivered', length)
+        else:
+            if t.disconnecting:
+                raise Hit('C06:legal-frame-length-terminated-the-connection', length)
+            calls = p.factory.handleResponse.call_args_list
+            if length <= 5 and [c.args[0] for c in calls] != [body]:
+                raise Hit('C06:frame-not-delivered-exactly-once-with-its-own-bytes', (length, calls))
+    return _run_exhaustive(one, 1000)
 
 
 # ---------------------------------------------------------------------------------------------- group (C15 C16 C17)
@@ -1044,24 +1112,37 @@ def scenario_group(rnd, n):
         pending = []
         requests = []
 
+        parts = [0, 1]               # the topic's current partitions in the cluster (may change between rebalances)
+
         def coord(group):
             return defer.succeed(BrokerMetadata(1, 'h', 1))
         client._get_coordinator_for_group.side_effect = coord
         client.load_metadata_for_topics.side_effect = lambda *t: (defer.fail(KafkaUnavailableError('x')) if r.random() < 0.2 else defer.succeed(True))
-        client._load_topic_partitions.side_effect = lambda *t: defer.succeed({'t': [0, 1]})
-        client.topic_partitions = {'t': [0, 1]}
+        client._load_topic_partitions.side_effect = lambda *t: defer.succeed({'t': list(parts)})
+        client.topic_partitions = {'t': parts}
 
         def srtc(group, payload, encoder_fn, decode_fn, **kw):
             kind = type(payload).__name__
             if kind == '_JoinGroupRequest' and (RecConsumer.live or RecConsumer.shutting):
                 raise Hit('C16:join-requested-before-the-previous-generation-consumers-were-shut-down',
                           [c_.key for c_ in RecConsumer.live])
+            if kind == '_SyncGroupRequest' and payload.group_assignment:
+                # the leader's assignment, decoded with afkak's own member-assignment decoder (checked separately):
+                # every CURRENT partition of the subscribed topic goes to exactly one member
+                given = []
+                for m in payload.group_assignment:
+                    a = KafkaCodec.decode_sync_group_member_assignment(m.member_metadata)
+                    given.extend(a.assignments.get('t', ()))
+                    if m.member_id == 'me':
+                        state['assigned'] = sorted(a.assignments.get('t', ()))
+                if sorted(given) != sorted(parts):
+                    raise Hit('C15:assignment-does-not-cover-the-current-partitions-exactly-once', (sorted(given), list(parts)))
             requests.append((kind, state['stopping']))
             d = defer.Deferred()
             pending.append((kind, d))
             return d
         client._send_request_to_coordinator.side_effect = srtc
-        state = dict(stopping=False, stopped=False, gen=0)
+        state = dict(stopping=False, stopped=False, gen=0, assigned=[0, 1])
         with patch.object(G, 'Consumer', RecConsumer):
             g = G.ConsumerGroup(client, 'g', ['t'], lambda *a: None)
             start_res = []
@@ -1077,6 +1158,8 @@ def scenario_group(rnd, n):
                     opts += ['consumer_shutdown_done', 'consumer_shutdown_done']
                 if not state['stopping'] and r.random() < 0.15:
                     opts += ['next_consumer_fails_at_start']
+                if not state['stopping'] and r.random() < 0.2:
+                    opts += ['partitions_change']
                 if not state['stopping'] and step > 2:
                     opts += ['stop']
                 ev = r.choice(opts)
@@ -1097,7 +1180,8 @@ def scenario_group(rnd, n):
                             d.callback(_JoinGroupResponse(0, state['gen'], 'consumer', 'me', 'me',
                                                           [_JoinGroupResponseMember('me', meta)]))
                         elif kind == '_SyncGroupRequest':
-                            d.callback(_SyncGroupResponse(0, KafkaCodec.encode_sync_group_member_assignment(0, {'t': [0, 1]}, b'')))
+                            d.callback(_SyncGroupResponse(0, KafkaCodec.encode_sync_group_member_assignment(
+                                0, {'t': list(state['assigned'])}, b'')))
                         elif kind == '_HeartbeatRequest':
                             d.callback(_HeartbeatResponse(0))
                         else:
@@ -1105,7 +1189,13 @@ def scenario_group(rnd, n):
                     elif ev == 'consumer_error':
                         cns = RecConsumer.live[0]
                         if cns._start_d and not cns._start_d.called:
-                            cns._start_d.errback(Failure(RebalanceInProgress()))
+                            # reported through start()'s Deferred; the consumer itself keeps running until it is stopped.
+                            # Eviction-type errors (illegal generation, unknown member, timeout) force-stop the consumers.
+                            cns._start_d.errback(Failure(r.choice([RebalanceInProgress(), RebalanceInProgress(), IllegalGeneration(),
+                                                                   UnknownMemberId(), RequestTimedOutError()])))
+                    elif ev == 'partitions_change':
+                        newp = r.choice([[0, 1, 2], [0], [1, 3], [0, 1, 2, 5]])
+                        parts[:] = newp
                     elif ev == 'consumer_shutdown_done':
                         cns, d = RecConsumer.shutting.pop(0)
                         cns.stop()
@@ -1135,7 +1225,7 @@ def scenario_group(rnd, n):
                         g._heartbeat_looper.running and not RecConsumer.shutting:
                     # a member that considers itself joined consumes the partitions assigned to it
                     have = sorted(c_.key[:2] for c_ in RecConsumer.live)
-                    if have != [('t', 0), ('t', 1)]:
+                    if have != [('t', p_) for p_ in state['assigned']]:
                         raise Hit('C17:joined-member-does-not-consume-its-partitions', (have, g._state))
                 if not state['stopping'] and not start_res:
                     idle = not g._rejoin_d and not (not g._rejoin_needed and g._heartbeat_looper.running) and \
@@ -1269,6 +1359,49 @@ def scenario_bootstrap_late_events(rnd, n):
     return _run_exhaustive(one, 1000)
 
 
+def scenario_api_discovery(rnd, n):
+    """C04, version discovery: the version a request goes out with is the broker's advertised maximum for that API when
+    discovery succeeded (looked up by key in an unordered, sparse table) and 0 when discovery failed - also for the very
+    request that triggered the discovery, and consistently for the ones after it.  Exhaustive over the listed outcomes."""
+    from afkak import KafkaClient
+    from afkak.common import KafkaUnavailableError
+
+    def one(r, script):
+        clock = task.Clock()
+        client = KafkaClient(hosts='h:1', reactor=clock, enable_protocol_version_discovery=True)
+        mode = r.choice(['table', 'table-unordered-sparse', 'error-with-table', 'error-without-table', 'no-answer'])
+        key = r.choice([0, 1])
+        table = {'table': [(0, 0, 2), (1, 0, 2), (18, 0, 1)],
+                 'table-unordered-sparse': [(18, 0, 2), (1, 0, 5), (3, 0, 4), (0, 0, 7)],
+                 'error-with-table': [(0, 0, 2), (1, 0, 2)], 'error-without-table': [], 'no-answer': []}[mode]
+        err = 35 if mode.startswith('error') else 0
+        script.append(('api', key, 'discovery', mode))
+        asked = []
+
+        def sbur(rid, req):
+            asked.append(req)
+            if mode == 'no-answer':
+                return defer.fail(Failure(KafkaUnavailableError('no broker answered')))
+            body = struct.pack('>ihi', struct.unpack('>i', req[4:8])[0], err, len(table))
+            for k, lo, hi in table:
+                body += struct.pack('>hhh', k, lo, hi)
+            return defer.succeed(body)
+
+        client._send_broker_unaware_request = sbur
+        out = []
+        for _ in range(2):
+            client.get_api_version(key).addBoth(out.append)
+        if len(out) != 2 or any(isinstance(x, Failure) for x in out):
+            raise Hit('C04:api-version-lookup-did-not-complete', repr(out)[:200])
+        want = dict((k, hi) for k, lo, hi in table).get(key, 0) if err == 0 and mode != 'no-answer' else 0
+        if out[0] != want:
+            raise Hit('C04:version-of-the-request-that-triggered-discovery-differs-from-the-discovered-one', (mode, key, out[0], want))
+        if out[1] != want:
+            raise Hit('C04:version-after-discovery-differs-from-the-discovered-one', (mode, key, out[1], want))
+    return _run_exhaustive(one, 1000)
+
+
+SCENARIOS['api_discovery'] = scenario_api_discovery
 SCENARIOS['magic_fallback'] = scenario_magic_fallback
 SCENARIOS['bootstrap_close'] = scenario_bootstrap_close
 SCENARIOS['bootstrap_late_events'] = scenario_bootstrap_late_events
@@ -1605,6 +1738,7 @@ def scenario_producer_e2e(rnd, n):
 
 
 SCENARIOS['producer_e2e'] = scenario_producer_e2e
+SCENARIOS['frames'] = scenario_frames
 
 
 # ---------------------------------------------------------------------------------------------- consumer end to end (C02 C03 C12 C13)
@@ -1756,6 +1890,11 @@ def scenario_consumer_e2e(rnd, n):
             d = defer.Deferred()
             state['in_processor'] += 1
             proc_pending.append((d, offs))
+            if r.random() < 0.3:
+                # a Deferred that HAS fired but whose result is still pending: its chain is paused on `d`
+                outer = defer.succeed(None)
+                outer.addCallback(lambda _: d)
+                return outer
             return d
 
         bufsize = r.choice([64, 160, 4096])
